@@ -145,9 +145,13 @@ pub fn worker(spec: &'static PropSpec, tier: Tier, seed: u64, stripe: usize, job
                 let polls2 = crate::rsim::POLLS.load(Ordering::Relaxed);
                 let kind = if polls2 != polls { "yielding" } else { "non-yielding" };
                 if stuck_is_verdict {
-                    let class = "spin".to_string();
-                    *a.classes.entry(class.clone()).or_insert(0) += 1;
                     let what = crate::rsim::current_scenario();
+                    // e.g. spin/tls/close_notify+FIN: transport and first word of the scenario label
+                    let class = match what.split(' ').next() {
+                        Some(w) if !w.is_empty() => format!("spin/{w}"),
+                        _ => "spin".to_string(),
+                    };
+                    *a.classes.entry(class.clone()).or_insert(0) += 1;
                     a.violations.push(json!({
                         "id": run_id_json(&id), "class": class,
                         "detail": format!("{what}: no virtual-time heartbeat for {}s of real time ({kind} spin): the client neither completes nor blocks", watchdog.as_secs()),
@@ -408,7 +412,7 @@ pub fn replay(path: &Path, lookup: fn(&str) -> Option<&'static PropSpec>) -> i32
                     last = now;
                     since = Instant::now();
                 } else if since.elapsed() >= watchdog {
-                    println!("replay: class=spin (no heartbeat for {}s) — reproduced", watchdog.as_secs());
+                    println!("replay: class=spin/{} (no heartbeat for {}s) — reproduced", crate::rsim::current_scenario().split(' ').next().unwrap_or(""), watchdog.as_secs());
                     println!("VIOLATION property={spec_id} replay={p}");
                     std::process::exit(1);
                 }
